@@ -1429,6 +1429,7 @@ package memberlist
 //@   loop #1 invariant notself [C20]: forall x int :: deadIdx <= x && x < i ==> m.nodes[x].Name != m.config.Name
 //@   loop #1 invariant map [C07]: forall n string :: has(m.nodeMap, n) == old(has(m.nodeMap, n)) && m.nodeMap[n] == old(m.nodeMap[n])
 //@   loop #1 invariant maplen [C07]: len(m.nodeMap) == old(len(m.nodeMap))
+//@   loop #2 shape counts-from-deadIdx: i == deadIdx     // the invariants below speak about the index loop over the reaped tail
 //@   loop #2 invariant idx [C07]: 0 <= deadIdx && deadIdx <= i && i <= len(m.nodes) && m.nodes == old(m.nodes)
 //@   loop #2 invariant kept [C07]: forall x int :: 0 <= x && x < deadIdx ==> regd(m, m.nodes[x])
 //@   loop #2 invariant todo [C07,C20]: forall x int :: i <= x && x < len(m.nodes) ==> regd(m, m.nodes[x]) && dol(m.nodes[x].State) && m.nodes[x].Name != m.config.Name
